@@ -224,7 +224,9 @@ let () =
              if exec = 0 && invlog = "-" then fail "inv" (Printf.sprintf "f%d x=%d: cached value served without consulting invalidate_on" f x);
              if invlog <> "-" && invb && exec = 0 then fail "inv" (Printf.sprintf "f%d x=%d: stale entry served" f x);
              if invlog <> "-" && not invb && exec > 0 then fail "inv" (Printf.sprintf "f%d x=%d: fresh entry recomputed" f x);
-             if invlog <> "-" && invb && exec > 0 && impl_store_decision fn okb cifb && fn.w.w_cfg.maxmem = None then
+             let fits = (match fn.w.w_cfg.maxmem with None -> true | Some m -> size <= int_of_n m) in
+             let newest_survives = fn.w.w_cfg.maxmem = None || fn.fl = "a" || fn.w.w_cfg.pol = FIFO || fn.w.w_cfg.pol = LRU in
+             if invlog <> "-" && invb && exec > 0 && impl_store_decision fn okb cifb && fits && newest_survives then
                (match stored_after with
                 | Some (v, _, _) when v = int_of_n (enc body) -> ()
                 | _ -> fail "inv" (Printf.sprintf "f%d x=%d: fresh result did not replace the stale entry" f x))
@@ -388,7 +390,16 @@ let () =
          let exp = (match stats_get (n_of_int id) !world with
              | Some (h, m) -> ["stats"; string_of_int (int_of_n h); string_of_int (int_of_n m)]
              | None -> ["stats"; "none"]) in
-         if rl <> exp then set_verdict (Printf.sprintf "MISMATCH %d %s %s model=%s impl=%s" !evidx kind a (String.concat " " exp) !got_r)
+         if rl <> exp then set_verdict (Printf.sprintf "MISMATCH %d %s %s model=%s impl=%s" !evidx kind a (String.concat " " exp) !got_r);
+         if has "stats" && kind = "sget" then begin
+           let fi = int_of_string a in
+           if fns.(fi).fl <> "t" && Hashtbl.mem prev_inst (fi, -1) && rl = ["stats"; "none"] then
+             fail "stats" (Printf.sprintf "statistics of f%d are not retrievable under its cache name %s" fi fns.(fi).name);
+           (match rl, Hashtbl.find_opt exp_stats fi with
+            | ["stats"; h; m], Some (eh, em) when not fns.(fi).w.w_inval_on && (int_of_string h, int_of_string m) <> (eh, em) ->
+              fail "stats" (Printf.sprintf "stats_registry::get for f%d returned %s/%s, expected %d/%d" fi h m eh em)
+            | _ -> ())
+         end
        | "sreset", f :: _ ->
          let (w', b) = stats_reset (n_of_int (intern fns.(int_of_string f).name)) !world in
          set_world w';
